@@ -1,6 +1,8 @@
 import Driver.Expr
 import Model.IdManager
 import Model.IdSeq
+import Model.ResultsByName
+import Model.IdRename
 open Lean Drv Expr Engine DrvExpr
 
 def optF (j : Json) (k : String) : Except String (Option Float) :=
@@ -38,11 +40,54 @@ def outJson : Option (List Float × List Float) → Json
   | none => Json.null
   | some (v, f) => Json.mkObj [("free", jFloats v), ("fixed", jFloats f)]
 
+def optS (j : Json) (k : String) : Except String (Option String) :=
+  match j.getObjVal? k with
+  | .ok Json.null => pure none
+  | .ok v => do pure (some (← asStr v))
+  | .error _ => pure none
+
+def optMat (j : Json) (k : String) : Except String (Option (List (List Float))) :=
+  match j.getObjVal? k with
+  | .ok Json.null => pure none
+  | .ok v => do pure (some (← floatMat v))
+  | .error _ => pure none
+
+def optStrs (j : Json) : Except String (Option (List String)) :=
+  match j with
+  | Json.null => pure none
+  | v => do pure (some (← strList v))
+
+def rbetaJson (b : IdM.RBeta String Float) : Json :=
+  Json.mkObj [("name", jStr b.name), ("value", fbits b.value), ("lb", jOptF b.lb), ("ub", jOptF b.ub),
+    ("stdErr", jOptF b.stdErr), ("tTest", jOptF b.tTest), ("robStdErr", jOptF b.robStdErr),
+    ("robTTest", jOptF b.robTTest), ("bootStdErr", jOptF b.bootStdErr), ("bootTTest", jOptF b.bootTTest)]
+
+def pairsJson (l : List (String × Float)) : Json := jArr (l.map fun (n, v) => jArr [jStr n, fbits v])
+
+def orNull {β} (f : β → Json) : Option β → Json
+  | none => Json.null
+  | some v => f v
+
+def frameJson (fr : List ((String × String) × Float)) : Json :=
+  jArr (fr.map fun ((a, b), v) => jArr [jStr a, jStr b, fbits v])
+
+def secondJson (tab : List ((String × String) × List (IdM.PairStat Float))) : Json :=
+  jArr (tab.map fun ((a, b), st) => jArr [jStr a, jStr b, jArr (st.map fun s => jArr [fbits s.cov, fbits s.test])])
+
 def handle (j : Json) : Except String Json := do
   let op ← getStr j "op"
   match op with
   | "table" =>
-    let decls ← (← getArr j "decls").toList.mapM parseDecl
+    let decls0 ← (← getArr j "decls").toList.mapM parseDecl
+    -- optionally the library renames / fixes first (rename_elementary, fix_betas with prefix and suffix)
+    let decls1 ← match j.getObjVal? "rename" with
+      | .ok r => do
+        pure (IdM.renameElem (← strList (← r.getObjVal? "names")) (IdM.affix (← optS r "prefix") (← optS r "suffix")) decls0)
+      | .error _ => pure decls0
+    let decls ← match j.getObjVal? "fix" with
+      | .ok r => do
+        pure (IdM.fixBetasRen decls1 (← parseDict (← r.getObjVal? "dict")) (IdM.affix (← optS r "prefix") (← optS r "suffix")))
+      | .error _ => pure decls1
     let cols ← strList (← j.getObjVal? "cols")
     let dict ← parseDict (← j.getObjVal? "dict")
     let rvs ← strList (← j.getObjVal? "rvs")
@@ -53,6 +98,7 @@ def handle (j : Json) : Except String Json := do
       pure (Json.mkObj [
         ("free", jStrs t.free), ("fixed", jStrs t.fixed), ("cols", jStrs t.cols),
         ("rvs", jStrs t.rvs), ("draws", jStrs t.draws), ("all", jStrs t.all),
+        ("decls", jArr (decls.map declJson)),
         ("freeValues", jFloats (IdM.freeValues t decls dict)),
         ("fixedValues", jFloats (IdM.fixedValues t decls)),
         ("bounds", jArr ((IdM.bounds t decls).map fun (a, b) => jArr [jOptF a, jOptF b])),
@@ -74,6 +120,41 @@ def handle (j : Json) : Except String Json := do
         ("outs", jArr ((IdM.run t s0 ops).map outJson)),
         ("finalVec", jFloats s1.vec), ("finalFixed", jFloats s1.fixedVec),
         ("finalDecls", jArr (s1.decls.map declJson))])
+  | "results" =>
+    -- the reporting layer: a vector and matrices in reported order, paired with names
+    let decls ← (← getArr j "decls").toList.mapM parseDecl
+    let cols ← strList (← j.getObjVal? "cols")
+    let x ← floatList (← j.getObjVal? "x")
+    let big ← getFloat j "big"
+    let V ← floatMat (← j.getObjVal? "V")
+    let R ← floatMat (← j.getObjVal? "R")
+    let B ← optMat j "B"
+    let reqs ← (← getArr j "reqs").toList.mapM optStrs
+    let subsets ← (← getArr j "subsets").toList.mapM optStrs
+    let samples ← (← getArr j "samples").toList.mapM fun e => do
+      pure (← strList (← e.getObjVal? "req"), ← floatMat (← e.getObjVal? "M"))
+    match IdM.prepare decls [] [] cols with
+    | .error dups => pure (Json.mkObj [("duplicates", jStrs dups)])
+    | .ok t =>
+      match IdM.rawBetas t decls x with
+      | none => pure (Json.mkObj [("refused", jStr "rawBetas")])
+      | some bs0 =>
+        match IdM.withStats big V R B bs0 with
+        | none => pure (Json.mkObj [("refused", jStr "withStats")])
+        | some bs =>
+          let names := bs.map (·.name)
+          let Ms := [V, R] ++ (match B with | none => [] | some b => [b])
+          let tab := IdM.secondOrder big names x Ms
+          pure (Json.mkObj [
+            ("names", jStrs t.free),
+            ("betas", jArr (bs.map rbetaJson)),
+            ("betaValues", jArr (reqs.map fun r => orNull pairsJson (IdM.getBetaValues t.free bs r))),
+            ("frames", jArr (Ms.map fun M => orNull frameJson (IdM.frame names M))),
+            ("second", orNull secondJson tab),
+            ("subsets", jArr (subsets.map fun sub =>
+              orNull (fun tb => jArr ((IdM.corrSubset tb sub).map fun ((a, b), _) => jArr [jStr a, jStr b])) tab)),
+            ("sens", jArr (samples.map fun (req, M) =>
+              orNull (fun o => jArr (o.map pairsJson)) (IdM.sens t.free req M)))])
   | "changeInit" =>
     let decls ← (← getArr j "decls").toList.mapM parseDecl
     let dict ← parseDict (← j.getObjVal? "dict")
@@ -81,7 +162,15 @@ def handle (j : Json) : Except String Json := do
   | "fixBetas" =>
     let decls ← (← getArr j "decls").toList.mapM parseDecl
     let dict ← parseDict (← j.getObjVal? "dict")
-    pure (Json.mkObj [("decls", jArr ((IdM.fixBetas decls dict).map declJson))])
+    let pre ← optS j "prefix"
+    let suf ← optS j "suffix"
+    pure (Json.mkObj [("decls", jArr ((IdM.fixBetasRen decls dict (IdM.affix pre suf)).map declJson))])
+  | "renameElem" =>
+    let decls ← (← getArr j "decls").toList.mapM parseDecl
+    let names ← strList (← j.getObjVal? "names")
+    let pre ← optS j "prefix"
+    let suf ← optS j "suffix"
+    pure (Json.mkObj [("decls", jArr ((IdM.renameElem names (IdM.affix pre suf) decls).map declJson))])
   | "eval" =>
     let d ← parseDag (← j.getObjVal? "dag")
     let env ← parseEnv (← j.getObjVal? "env")
